@@ -108,9 +108,14 @@ func VHC14Wrapper() {
 	prog := "BEGIN { print '" + s + "' }\n" + c14Prog
 	src := vh.Choose("progsrc", 2) // 0 inline, 1 -f
 	inp := vh.Choose("inputs", 4)  // 0 stdin, 1 one file, 2 two files, 3 a missing file
-	nsel := vh.Choose("nsel", 3)   // 0-2 selectors
+	nsel := vh.Choose("nsel", 4)   // 0-2 selectors, or one whose text holds commas, blanks and the symbolic byte
 	outm := vh.Choose("omode", 3)  // 0 none, 1 "-o -", 2 "-o out.json"
-	sels := []string{"$", "[$]"}[:nsel]
+	sels := []string{"$", "[$]"}
+	if nsel == 3 {
+		sels = []string{"[$[\"" + s + "\"], $.n,  $ is object]"}
+	} else {
+		sels = sels[:nsel]
+	}
 	ds := s // what travels through the data
 	if outm != 0 {
 		ds = "q" // the JSON text level is not modelled symbolically: concrete data when -o is given
